@@ -220,19 +220,35 @@ impl<'a> Gram<'a> {
         n("Def", ch)
     }
 
-    // object names: identifier / string / paste of those (no `{`-suffix in name mode)
-    fn name_value(&mut self, _depth: usize) -> T {
+    // object names: NameInner ("#" NameInner)*, NameInner ::= SimpleValue (SliceSuffix | FieldSuffix)*
+    // (no `{`-suffix at the top level of a name: it would be the body; nested values are ordinary)
+    fn name_value(&mut self, depth: usize) -> T {
         let k = if self.rng.chance(1, 5) { 2 } else { 1 };
         let mut ch = Vec::new();
         for i in 0..k {
             if i > 0 {
                 ch.push(t("#"));
             }
-            let sv = match self.rng.below(4) {
-                0 => self.string(),
+            let sv = match self.rng.below(8) {
+                0 | 1 => self.string(),
+                2 if !self.small(depth) => match self.rng.below(4) {
+                    0 => n("List", vec![n("ValueList", self.value_list(depth + 1, "[", "]", 1, 2))]),
+                    1 => n("ClassValue", vec![self.id(), t("<"), self.arg_value_list(depth + 1), t(">")]),
+                    _ => self.bang(depth + 1),
+                },
                 _ => self.id(),
             };
-            ch.push(n("InnerValue", vec![sv]));
+            let mut inner = vec![sv];
+            if self.rng.chance(1, 8) && !self.small(depth) {
+                let sfx = loop {
+                    let sfx = self.suffix(depth + 1);
+                    if sfx.kind() != "RangeSuffix" {
+                        break sfx;
+                    }
+                };
+                inner.push(sfx);
+            }
+            ch.push(n("InnerValue", inner));
         }
         n("Value", ch)
     }
